@@ -60,7 +60,7 @@ pub fn check(sh: &Shared, c: &Case) -> Check {
     if let LN::Task { budget, .. } = x {
         sh.class(&format!("budget-entries/{}", budget.len()));
     }
-    match guard(|| l.parse(&s)) {
+    match crate::pipes::lexical_parse_raw(fi, &s) {
         Err(p) => fail!("parse:panic", "text {s:?}\npanic {p}"),
         Ok(Err(e)) => fail!("roundtrip:err", "text {s:?}\nerror {e}\nvalue {x:?}"),
         Ok(Ok(back)) => {
